@@ -527,7 +527,9 @@ def selftest_stage(st, prop, trace_path):
 
 
 def write_evidence(prop, tier, seed, out, level, wall, violations, notes, assumptions, exhaustive):
-    os.makedirs(os.path.join(ROOT, "evidence"), exist_ok=True)
+    # development runs against a deliberately modified tree (tools/try_patch.sh) write elsewhere
+    evdir = os.environ.get("VERIF_EVIDENCE_DIR") or os.path.join(ROOT, "evidence")
+    os.makedirs(evdir, exist_ok=True)
     cov = {c: n for c, n in sorted(out.cov.items()) if c.startswith(prop + ".")}
     ev = {
         "property_id": prop, "tier": tier, "seed": int(seed), "level": level,
@@ -546,7 +548,7 @@ def write_evidence(prop, tier, seed, out, level, wall, violations, notes, assump
         "violations": int(violations),
     }
     ev["coverage"].update(out.extra)
-    with open(os.path.join(ROOT, "evidence", f"{prop}.json"), "w") as f:
+    with open(os.path.join(evdir, f"{prop}.json"), "w") as f:
         json.dump(ev, f, indent=1)
 
 
